@@ -17,26 +17,28 @@ import (
 
 // Options of a comparison.
 type Options struct {
-	RefFuel      int  // evaluation steps granted to the reference per statement (default 200000)
-	TotalityOnly bool // judge only host panics, non-termination and undocumented error classes (C05)
-	KeepGoing    bool // keep comparing after a domain flag (totality only from there on)
-	OnImplStmt   func(i int, s *impl.Session, r impl.StmtResult)
-	OnRefStmt    func(i int, in *refsem.Interp, r refsem.Result)
-	Opcodes      map[string]int
-	Stdin        []string
+	RefFuel          int  // evaluation steps granted to the reference per statement (default 200000)
+	TotalityOnly     bool // judge only host panics, non-termination and undocumented error classes (C05)
+	KeepGoing        bool // keep comparing after a domain flag (totality only from there on)
+	OnImplStmt       func(i int, s *impl.Session, r impl.StmtResult)
+	OnRefStmt        func(i int, in *refsem.Interp, r refsem.Result)
+	Opcodes          map[string]int
+	Stdin            []string
+	AllowParseErrors bool // sessions may contain statements the parser rejects (C08)
 }
 
 // Outcome of a comparison.
 type Outcome struct {
-	Sig      string // "" when the property held
-	Detail   string
-	Skipped  string   // reason the session (or its tail) was not judged: domain flag, reference fuel, parse
-	Judged   int      // statements compared
-	Executed int      // statements the implementation ran to a value or a documented runtime error
-	ImplObs  []string // per statement
-	RefObs   []string
-	Errors   int // statements that ended in a runtime error in both
-	Steps    int
+	Sig         string // "" when the property held
+	Detail      string
+	Skipped     string   // reason the session (or its tail) was not judged: domain flag, reference fuel, parse
+	Judged      int      // statements compared
+	Executed    int      // statements the implementation ran to a value or a documented runtime error
+	ImplObs     []string // per statement
+	RefObs      []string
+	Errors      int // statements that ended in a runtime error in both
+	ParseErrors int // statements the parser rejected
+	Steps       int
 }
 
 // DocumentedErrors are the runtime error classes of the language.
@@ -89,6 +91,7 @@ func Compare(stmts []string, opt Options) (o Outcome) {
 			return o
 		}
 		if pr.Err != "" {
+			o.ParseErrors++
 			o.ImplObs = append(o.ImplObs, "PARSE-ERROR")
 			o.RefObs = append(o.RefObs, "PARSE-ERROR")
 			continue
